@@ -118,11 +118,15 @@ def golden(key):
     return _GOLD[key]
 
 
-def expect_golden(ctx, rid, key, gkey, suffix, why, crate=D):
+def expect_golden(ctx, rid, key, gkey, suffix, why, crate=D, mask=None):
+    """the function's term equals the reviewed one; `mask` (applied to both) blanks a sub-term that the rule deliberately leaves open"""
     fn = q.fn1(ctx.P, suffix, crate)
     if fn is None:
         ctx.bad(rid, "missing-anchor/" + suffix, "", "function `%s` not found" % suffix)
         return None
     t = show(Norm(fn).term(fn["body"]), 10 ** 7)
-    expect_term(ctx, rid, key, fn["sp"], t, golden(gkey), why)
+    g = golden(gkey)
+    if mask is not None:
+        t, g = mask(t), mask(g)
+    expect_term(ctx, rid, key, fn["sp"], t, g, why)
     return fn
